@@ -158,6 +158,19 @@ CHECKS["C15"] = {
     "note": "Arguments are literals and globals are fixed so that only caller locals vary. State carried between items of 'render ... for' is not asserted.",
 }
 
+CHECKS["C05"] = {
+    "technique": "validity-predicate + metamorphic fuzzing of filter chains and tags under autoescape with hostile data",
+    "text": "With autoescape on, (A) random templates and direct filter chains (1-4 filters from every built-in string/array/math filter except the HTML-generating ones) fed with data strings rich in <>&'\" must produce output with no raw special character, and (A') every & must start a complete entity when no cutting filter is involved; (B) Markup and __html__ values must pass through 14 output shapes unchanged; (C) for data without special characters the output must be identical with autoescape off - asserted only when a filter spy saw no special character in any intermediate string.",
+    "design_ref": "DESIGN.md §4 C05",
+    "note": "safe, newline_to_br, script_tag, stylesheet_tag, date, json, escapejs and tablerow are outside the property's domain. Template text/literals contain no special characters by construction.",
+}
+CHECKS["C18"] = {
+    "technique": "model-based testing: generated inheritance chains vs a reference flattener",
+    "text": "Chains of 1-4 templates over four block names (nested blocks, partial overrides, required flags, block.super at any depth, leaf text before extends, text outside blocks, variables and a loop around blocks in the root) and faulty chains (circular extends, duplicate block names, mismatched endblock) are rendered and compared with a 60-line flattener that substitutes most-derived definitions and unwinds super; error classes must match for the fault cases.",
+    "design_ref": "DESIGN.md §4 C18",
+    "note": "Mutually containing blocks across templates (no finite flattening) only need to end in a Liquid error. Duplicate blocks in a template rendered on its own are not asserted.",
+}
+
 NOT_APPLICABLE = [
     {"property_id": p, "reason": "check not built yet in this round (work in progress; see DESIGN.md §4 for the planned oracle)"}
     for p in ALL
